@@ -207,6 +207,18 @@ func runC13L2(r *core.Run) (*core.Violation, func() *core.Violation) {
 	if !isDone(inc.svc.Done()) {
 		r.Count("obs:service-did-not-terminate-after-shutdown")
 	}
+	// the service being done does not mean that the bus has handed everything on: a LeaseWon published by
+	// an order monitor on its way out may still sit between the bus and the harness' own subscription
+	// (their goroutines are scheduled like all others).  Let everything that can still move come to rest
+	// before the announcements are read - otherwise a won lease is taken for an order that "ended without
+	// LeaseWon" and its kept reservation for a leak.
+	for round := 0; round < 20; round++ {
+		loop.drainNoComplete(400)
+		x.s.Settle()
+		if len(loop.busyRunnable()) == 0 {
+			break
+		}
+	}
 	if v := loop.onStep(); v != nil {
 		return v, nil
 	}
